@@ -31,6 +31,21 @@ type Cell struct {
 	tag string     // allocation site comment
 	// builtin attachments
 	timer *TimerObj
+	accs  []*pathAcc
+}
+
+type pathAcc struct {
+	path []int
+	log  accessLog
+}
+
+// accessLog records the last write and the reads since, with vector clocks,
+// for the unsynchronised-shared-access check.
+type accessLog struct {
+	wG     *G
+	wClock int
+	wPos   string
+	reads  map[*G]int
 }
 
 type Ptr struct {
@@ -67,6 +82,7 @@ type MapObj struct {
 	T       *types.Map
 	Entries []*MapEntry // insertion order; deleted entries are kept (tombstones) for iterator stability
 	N       int         // live count
+	acc     accessLog
 }
 
 type MapV struct{ M *MapObj }
@@ -124,6 +140,7 @@ type TimerObj struct {
 	Fn       *FuncV // AfterFunc
 	cell     *Cell
 	Fires    int
+	armVC    []int
 }
 
 // ---- channels ----
@@ -132,6 +149,9 @@ type Chan struct {
 	id     int
 	Cap    int
 	Buf    []Value
+	BufVC  [][]int
+	RecvVC [][]int // vector clocks of completed receives (buffered channels): the k-th receive happens before the (k+cap)-th send completes
+	Sends  int
 	Closed bool
 	Elem   types.Type
 	tag    string
@@ -260,7 +280,7 @@ func (in *Interp) load(p Ptr) Value {
 	if p.Base == nil {
 		panic(goPanic("nil pointer dereference"))
 	}
-	in.noteAccess(p.Base, false)
+	in.noteAccessP(p.Base, p.Path, false)
 	return in.getPath(p.Base.V, p.Path)
 }
 
@@ -268,7 +288,7 @@ func (in *Interp) store(p Ptr, v Value) {
 	if p.Base == nil {
 		panic(goPanic("nil pointer dereference"))
 	}
-	in.noteAccess(p.Base, true)
+	in.noteAccessP(p.Base, p.Path, true)
 	p.Base.V = in.setPath(p.Base.V, p.Path, v)
 }
 
